@@ -143,6 +143,9 @@ def read_resolver(tree: Tree) -> Tuple[Func, ResolverModel]:
                 mod.keyerror_returns_none = True
     if name_var is None:
         raise AnalysisError("split_cipher_suite: the code-point lookup `cipher_suites[<id>]` was not found")
+    rebinds = [src(s2, 70) for s2 in body_walk(f.node) if isinstance(s2, (ast.Assign, ast.AugAssign)) and dotted(s2.targets[0] if isinstance(s2, ast.Assign) else s2.target) == id_param]
+    if rebinds:
+        mod.problems.append(f"the code point is rewritten before the lookup (`{rebinds[0]}`): code points outside the IANA-conformant table would be accepted under another code point's name")
     # 2. the nested loops
     outer = [st for st in body if isinstance(st, ast.For)]
     if len(outer) != 1:
